@@ -377,3 +377,136 @@ Lemma split_registration_witness :
     rw_tbl w = [(1, true); (2, false)] /\ rw_master w = Some 2 /\
     map r_pc (rw_threads w) = [RDone; RDone].
 Proof. exists [1; 0; 0; 1]%nat. vm_compute. repeat split. Qed.
+
+(* ------------------------------------------------------------------------------------------ *)
+(** * (v) lock re-entrancy
+
+    accessgen emits, for every method that locks a mutex of its receiver: [lock_acquires]
+    (function, lock), [recv_calls] (caller, callee on the same receiver) and [held_calls]
+    (holder, lock, callee called while the lock is held).  A held call is re-entrant when the callee
+    reaches, through calls on the same receiver, a function that acquires that lock. *)
+Definition str_mem (s : string) (l : list string) : bool := existsb (String.eqb s) l.
+
+Definition callees (calls : list (string * string)) (fs : list string) : list string :=
+  map snd (filter (fun c => str_mem (fst c) fs) calls).
+
+Fixpoint add_new (xs acc : list string) : list string :=
+  match xs with
+  | [] => acc
+  | x :: r => if str_mem x acc then add_new r acc else add_new r (acc ++ [x])
+  end.
+
+(** functions reachable from [fs] by at most [fuel] calls *)
+Fixpoint reach (calls : list (string * string)) (fuel : nat) (fs : list string) : list string :=
+  match fuel with
+  | O => fs
+  | S k => reach calls k (add_new (callees calls fs) fs)
+  end.
+
+Definition acquires_lock (acq : list (string * string)) (f l : string) : bool :=
+  existsb (fun a => String.eqb (fst a) f && String.eqb (snd a) l) acq.
+
+Definition reentrant (acq calls : list (string * string)) (hc : list (string * string * string))
+  : list (string * string * string) :=
+  filter (fun h => existsb (fun f => acquires_lock acq f (snd (fst h)))
+                           (reach calls (length calls) [snd h])) hc.
+
+(** ** what an empty [reentrant] table rules out.  A thread is a list of lock operations; [held] is
+    what it holds.  A program is re-entrancy free when it never acquires a lock that it holds. *)
+Inductive lockop := LAcq (l : string) (excl : bool) | LRel (l : string).
+
+Fixpoint str_remove (s : string) (l : list string) : list string :=
+  match l with [] => [] | x :: r => if String.eqb s x then r else x :: str_remove s r end.
+
+Fixpoint no_reacquire (held : list string) (ops : list lockop) : Prop :=
+  match ops with
+  | [] => True
+  | LAcq l _ :: r => str_mem l held = false /\ no_reacquire (l :: held) r
+  | LRel l :: r => no_reacquire (str_remove l held) r
+  end.
+
+Fixpoint held_after (held : list string) (ops : list lockop) : list string :=
+  match ops with
+  | [] => held
+  | LAcq l _ :: r => held_after (l :: held) r
+  | LRel l :: r => held_after (str_remove l held) r
+  end.
+
+(** however far a re-entrancy free thread has got, the lock it asks for next is not one it holds *)
+Lemma no_reacquire_next : forall pre held l e post,
+  no_reacquire held (pre ++ LAcq l e :: post) -> str_mem l (held_after held pre) = false.
+Proof.
+  induction pre as [|o pre IH]; intros held l e post H.
+  - cbn in *. exact (proj1 H).
+  - destruct o as [l0 e0|l0]; cbn [app no_reacquire held_after] in *.
+    + apply (IH _ _ e post). exact (proj2 H).
+    + apply (IH _ _ e post). exact H.
+Qed.
+
+(** a sync.RWMutex with writer preference: a read lock is granted when no writer holds the lock and
+    none is waiting; a write lock when nobody holds it *)
+Record rwlock := mkRW_ { rw_readers : list nat; rw_writer : option nat; rw_waiting : list nat }.
+Definition grant_read (k : rwlock) : bool :=
+  match rw_writer k, rw_waiting k with None, [] => true | _, _ => false end.
+Definition grant_write (k : rwlock) : bool :=
+  match rw_writer k, rw_readers k with None, [] => true | _, _ => false end.
+
+(** the recursive read lock: thread 1 holds the read lock, writer 2 waits, thread 1 asks for the read
+    lock again - neither request can be granted, and 1 waits for a lock that only it can release *)
+Lemma recursive_rlock_deadlock :
+  let k := mkRW_ [1%nat] None [2%nat] in
+  grant_read k = false /\ grant_write k = false /\ In 1%nat (rw_readers k).
+Proof. cbn. repeat split. left; reflexivity. Qed.
+
+(** [reach] really is the transitive closure up to its fuel: every call path of at most [fuel] steps
+    that starts in [fs] ends in [reach calls fuel fs] *)
+Lemma str_mem_In s l : str_mem s l = true <-> In s l.
+Proof.
+  unfold str_mem. rewrite existsb_exists. split.
+  - intros (x & Hx & E). apply String.eqb_eq in E. subst. exact Hx.
+  - intros H. exists s. split; [exact H|apply String.eqb_refl].
+Qed.
+
+Lemma add_new_incl xs : forall acc x, In x acc \/ In x xs -> In x (add_new xs acc).
+Proof.
+  induction xs as [|y r IH]; intros acc x H; cbn.
+  - destruct H as [H|[]]. exact H.
+  - destruct (str_mem y acc) eqn:E.
+    + apply IH. destruct H as [H|[<-|H]]; auto. left. apply str_mem_In. exact E.
+    + apply IH. destruct H as [H|[<-|H]]; auto; left; apply in_or_app; [left; exact H|right; left; reflexivity].
+Qed.
+
+Inductive call_path (calls : list (string * string)) : nat -> string -> string -> Prop :=
+| cp_here f : call_path calls 0 f f
+| cp_step n f g h : In (f, g) calls -> call_path calls n g h -> call_path calls (S n) f h.
+
+Lemma reach_mono calls : forall fuel fs x, In x fs -> In x (reach calls fuel fs).
+Proof.
+  induction fuel as [|k IH]; intros fs x H; cbn; [exact H|]. apply IH. apply add_new_incl. left; exact H.
+Qed.
+
+Lemma reach_path calls : forall n fuel fs f h,
+  call_path calls n f h -> (n <= fuel)%nat -> In f fs -> In h (reach calls fuel fs).
+Proof.
+  induction n as [|n IH]; intros fuel fs f h P Hn Hf.
+  - inversion P; subst. apply reach_mono. exact Hf.
+  - inversion P as [|? ? g ? Hc Pg]; subst. destruct fuel as [|fuel]; [lia|]. cbn [reach].
+    apply (IH fuel _ g h Pg ltac:(lia)). apply add_new_incl. right.
+    unfold callees. apply in_map_iff. exists (f, g). split; [reflexivity|].
+    apply filter_In. split; [exact Hc|]. apply str_mem_In. exact Hf.
+Qed.
+
+(** hence: if [reentrant] is empty, no held call reaches (within length-of-table steps, which covers
+    every simple path) a function that acquires the held lock *)
+Lemma reentrant_nil_sound acq calls hc :
+  reentrant acq calls hc = [] ->
+  forall holder lock callee n f, In (holder, lock, callee) hc -> call_path calls n callee f -> (n <= length calls)%nat ->
+    acquires_lock acq f lock = false.
+Proof.
+  intros E holder lock callee n f Hin P Hn.
+  destruct (acquires_lock acq f lock) eqn:A; [|reflexivity]. exfalso.
+  assert (In (holder, lock, callee) (reentrant acq calls hc)); [|rewrite E in H; exact H].
+  unfold reentrant. apply filter_In. split; [exact Hin|]. cbn [fst snd].
+  apply existsb_exists. exists f. split; [|exact A].
+  apply (reach_path calls n _ _ callee f P Hn). left; reflexivity.
+Qed.
